@@ -70,41 +70,62 @@ def h_consolidate_categories(im: int, i0: int, i1: int, i2: int, k: int, loaded:
 
 
 def replay_h_consolidate_categories(im, i0, i1, i2, k, loaded, fresh_from):
-    """a dataset written with m categories, then k appended batches with n0.. categories (shared label vocabulary):
-    the handle's category count and a full read"""
+    """batches with m, n0, n1(, n2) categories (one shared label vocabulary, prefixes of it): (a) written and appended
+    into one dataset, hive and single file; (b) written as separate files and opened / merged as a list.  The handle's
+    category count must cover every batch, and the rows must read back"""
     import os, shutil, tempfile
     import pandas as pd
     import fastparquet
     counts = [COUNTS[i] for i in [i0, i1, i2][:k]]
     m = COUNTS[im]
-    labels = ["L%03d" % i for i in range(max(counts + [m]))]
+    allc = [m] + counts
+    labels = ["L%03d" % i for i in range(max(allc))]
+    frames, want = [], []
+    for c in allc:
+        vals = [labels[0], labels[c - 1], labels[(c - 1) // 2]]
+        want += vals
+        frames.append(pd.DataFrame({"x": pd.Categorical(vals, categories=labels[:c])}))
     d = tempfile.mkdtemp(prefix="c07-")
+
+    def judge(how, opener, read_ok):
+        try:
+            pf = opener()
+            ncat = pf.categories["x"]
+        except Exception as ex:
+            return "batches with %r categories (%s): %s: %s" % (allc, how, type(ex).__name__, str(ex)[:90])
+        if ncat < max(allc):
+            return "batches with %r categories (%s): the dataset's metadata records %r categories" % (allc, how, ncat)
+        if read_ok:
+            try:
+                out = [str(v) for v in pf.to_pandas()["x"]]
+            except Exception as ex:
+                return "batches with %r categories (%s): the dataset cannot be read: %s: %s" % (
+                    allc, how, type(ex).__name__, str(ex)[:90])
+            if out != want:
+                return "batches with %r categories (%s): rows read %r, written %r" % (allc, how, out[:4], want[:4])
+        return None
+    # (a full read is only meaningful when the last batch carries the largest vocabulary: row groups with differing
+    # dictionaries are relabelled with the last one - a separate, known defect)
+    read_ok = allc[-1] == max(allc)
     try:
         for scheme in ("hive", "simple"):
             fn = os.path.join(d, "ds-" + scheme)
-            want = []
-            for i, c in enumerate([m] + counts):
-                vals = [labels[0], labels[c - 1], labels[(c - 1) // 2]]
-                want += vals
-                fastparquet.write(fn, pd.DataFrame({"x": pd.Categorical(vals, categories=labels[:c])}),
-                                  file_scheme=scheme, append=i > 0)
-            allc = [m] + counts
-            pf = fastparquet.ParquetFile(fn)
-            ncat = pf.categories["x"]
-            if ncat < max(allc):
-                return True, "batches with %r categories (%s): the dataset's metadata records %r categories" % (
-                    allc, scheme, ncat)
-            if allc[-1] == max(allc):
-                # (a full read is only meaningful when the last batch carries the largest vocabulary: row groups
-                # with differing dictionaries are relabelled with the last one - a separate, known defect)
-                try:
-                    out = [str(v) for v in pf.to_pandas()["x"]]
-                except Exception as ex:
-                    return True, "batches with %r categories (%s): the dataset cannot be read: %s: %s" % (
-                        allc, scheme, type(ex).__name__, str(ex)[:90])
-                if out != want:
-                    return True, "batches with %r categories (%s): rows read %r, written %r" % (
-                        allc, scheme, out[:4], want[:4])
+            try:
+                for i, df in enumerate(frames):
+                    fastparquet.write(fn, df, file_scheme=scheme, append=i > 0)
+            except Exception as ex:
+                return True, "batches with %r categories (%s): appending fails: %s: %s" % (
+                    allc, scheme, type(ex).__name__, str(ex)[:90])
+            bad = judge("appended, " + scheme, lambda: fastparquet.ParquetFile(fn), read_ok)
+            if bad:
+                return True, bad
+        fns = []
+        for i, df in enumerate(frames):
+            fns.append(os.path.join(d, "piece%d.parq" % i))
+            fastparquet.write(fns[-1], df)
+        bad = judge("separate files opened as a list", lambda: fastparquet.ParquetFile(fns), read_ok)
+        if bad:
+            return True, bad
         return False, "count covers every chunk"
     finally:
         shutil.rmtree(d, ignore_errors=True)
